@@ -260,3 +260,29 @@ def np_isnan(x):
             out[i] = (not isinstance(v, (Sym, SymBool))) and bool(np.isnan(float(v)))
         return out
     return np.isnan(x)
+
+
+@_named("float()-identity on symbolic values (inside the named wavespectra module only)")
+@contextlib.contextmanager
+def float_identity(*modules):
+    import builtins
+
+    def _float(x=0.0):
+        if isinstance(x, (Sym, SymBool)):
+            return x
+        if isinstance(x, np.ndarray) and x.dtype == object and x.size == 1 and isinstance(x.ravel()[0], (Sym, SymBool)):
+            return x.ravel()[0]
+        return builtins.float(x)
+
+    olds = []
+    for m in modules:
+        olds.append((m, m.__dict__.get("float", None), "float" in m.__dict__))
+        m.float = _float
+    try:
+        yield
+    finally:
+        for m, old, had in olds:
+            if had:
+                m.float = old
+            else:
+                del m.float
